@@ -82,23 +82,24 @@ def data_path_indices(ctx, comp, pid="C21"):
                 for y in _walk(x[2], True):
                     if len(y) == 3 and y[0] == "i" and y[1][0] == "lc" and len(y[1][3]) == 1 and y[1][3][0][1] == pat("range(self.writes_ports)"):
                         ctx.check(y[2] == b, f"{pid}.port-index-agreement", h.site, f"MemoryBank.write-port-list-index@{tstr(h.lhs)[:40]}", found=f"[...][{tstr(y[2])}] inside `for {tstr(b)}`", required="a per-write-port list is taken at the index of the enclosing write-port loop")
-                sel = x[2][1] if x[2][0] == "tuple" and len(x[2]) == 3 else x[2]
-                f = to_formula(sel) if sel[0] == "op" else None
-                if f is None:
+                # forwarding pairs (selector, write_port[j].data): the selector is the match of write port j
+                if not (x[2][0] == "tuple" and len(x[2]) == 3 and x[2][2][0] == "a" and x[2][2][2] == "data" and x[2][2][1][0] == "i" and x[2][2][1][1] in wp):
                     continue
-                ats = atoms_of(f)
-                en = [a for a in ats if pmatch("Q_w[Q_j].en", a)]
-                eq = [a for a in ats if pmatch("Q_w[Q_j].addr == Q_x", a) or pmatch("Q_x == Q_w[Q_j].addr", a)]
-                if not en and not eq:
-                    continue
+                sel, jb = x[2][1], b
+                if sel[0] == "i" and sel[1][0] == "lc" and len(sel[1][3]) == 1 and sel[1][3][0][1] == pat("range(self.writes_ports)"):
+                    sel, jb = sel[1][2], sel[1][3][0][0]
                 n_match += 1
+                f = to_formula(sel)
+                ats = atoms_of(f)
+                en = [a_ for a_ in ats if pmatch("Q_w[Q_j].en", a_)]
+                eq = [a_ for a_ in ats if pmatch("Q_w[Q_j].addr == Q_x", a_) or pmatch("Q_x == Q_w[Q_j].addr", a_)]
                 ok = len(en) == 1 and len(eq) == 1 and len(ats) == 2 and equivalent(f, f_and(A(en[0]), A(eq[0]))) is None
                 if ok:
                     me = pmatch("Q_w[Q_j].en", en[0])
                     mq = pmatch("Q_w[Q_j].addr == Q_x", eq[0]) or pmatch("Q_x == Q_w[Q_j].addr", eq[0])
-                    ok = me["j"] == b == mq["j"] and me["w"] == mq["w"] and me["w"] in wp and mq["x"][0] == "i" and mq["x"][1] in rp
-                ctx.check(ok, f"{pid}.forwarding-match", h.site, f"MemoryBank.match@{tstr(h.lhs)[:40]}", found=tstr(x[2])[:160],
-                          required="match[j] = write_port[j].en & (write_port[j].addr == tracked address of this read port): a write in this cycle to the tracked row")
+                    ok = me["j"] == jb == mq["j"] and me["w"] == mq["w"] and me["w"] in wp and mq["x"][0] == "i" and mq["x"][1] in rp
+                ctx.check(ok, f"{pid}.forwarding-match", h.site, f"MemoryBank.match@{tstr(h.lhs)[:40]}", found=tstr(sel)[:160],
+                          required="the selector of a forwarded write is write_port[j].en & (write_port[j].addr == tracked address of this read port): a write in this cycle to the tracked row")
     ctx.floor(pid, "MemoryBank statements over per-read-port signals", n_stmt, 8, comp.site)
     ctx.floor(pid, "MemoryBank write-port comprehensions", n_lc, 2, comp.site)
     ctx.floor(pid, "MemoryBank forwarding matches", n_match, 2, comp.site)
